@@ -142,6 +142,11 @@ pub struct ClientModel {
     pub t35: u64,
     pub effects: Vec<Effect>,
     pub connected_once: bool,
+    /// Set when the run has reached a point where two things were ready at once in the idle
+    /// loop of the channel - input from the peer *and* a queued command - and what is observable
+    /// depends on which of the two the task handles first. No property decides that order (the
+    /// task's `select!` is unbiased), so the model cannot predict the outcome: the run ends here.
+    pub order_dependent: Option<&'static str>,
 }
 
 impl ClientModel {
@@ -170,6 +175,7 @@ impl ClientModel {
             t35: 0,
             effects: Vec::new(),
             connected_once: false,
+            order_dependent: None,
         };
         m.emit(MState::Disabled);
         m
@@ -199,6 +205,14 @@ impl ClientModel {
     }
     pub fn queued(&self) -> usize {
         self.queue.len()
+    }
+    fn command_waiting(&self) -> bool {
+        !self.queue.is_empty() || self.handles_dropped
+    }
+    /// transaction ids the queued requests will get
+    fn queued_tx_window(&self) -> (u16, u16) {
+        let n = self.queue.iter().filter(|c| matches!(c, Cmd::Request(_))).count().min(65535) as u16;
+        (self.tx_id, n)
     }
     pub fn phase_name(&self) -> &'static str {
         match self.phase {
@@ -295,12 +309,23 @@ impl ClientModel {
             Transport::Tcp => {
                 let frames = self.mbap.feed(data);
                 for f in frames {
+                    if self.outstanding.is_none() && self.command_waiting() {
+                        // dropped as idle traffic if the task looks at its input first; if it takes the next
+                        // request first, a frame carrying that request's id is its reply
+                        let (first, n) = self.queued_tx_window();
+                        if f.tx.wrapping_sub(first) < n {
+                            self.order_dependent = Some("frame with the id of a queued request buffered while the channel is idle");
+                        }
+                    }
                     self.on_frame(Some(f.tx), &f.pdu);
                     if self.phase != Phase::Connected {
                         return;
                     }
                 }
                 if self.mbap.dead && self.phase == Phase::Connected {
+                    if self.outstanding.is_none() && self.command_waiting() {
+                        self.order_dependent = Some("framing error buffered while the channel is idle and a command is queued");
+                    }
                     self.on_framing_error();
                 } else {
                     self.pump();
@@ -328,6 +353,11 @@ impl ClientModel {
             let (items, used) = frame::rtu_deframe(RtuDir::Response, &self.rtu_buf);
             if items.is_empty() {
                 return;
+            }
+            if self.outstanding.is_none() && self.command_waiting() {
+                // no transaction ids on a serial line: the frame (or framing error) is idle traffic if the
+                // task looks at its input first, and the reply to the next request if it takes that first
+                self.order_dependent = Some("serial input buffered while the channel is idle and a command is queued");
             }
             match &items[0] {
                 RtuItem::Frame { pdu, .. } => {
@@ -398,6 +428,9 @@ impl ClientModel {
                 self.inbound_eof = Some(Some(k));
                 return;
             }
+        }
+        if self.outstanding.is_none() && self.command_waiting() {
+            self.order_dependent = Some("end of stream / read error pending while the channel is idle and a command is queued");
         }
         if let Some(o) = self.outstanding.take() {
             self.effects.push(Effect::Complete {
@@ -558,11 +591,21 @@ impl ClientModel {
             Transport::Tcp => {
                 self.emit(MState::Connecting);
                 if self.name_unresolvable {
+                    if self.command_waiting() {
+                        self.order_dependent = Some("name resolution failed at once while a command is queued");
+                    }
                     // the host name does not resolve: no TCP connect is made (no plan is consumed)
                     self.on_connect_failed();
                     return;
                 }
                 let plan = self.plans.pop_front().unwrap_or(if self.server_up { Plan::Accept } else { Plan::Refuse });
+                if self.command_waiting() {
+                    // a command that is already queued is ready at the first poll of the connect future, and
+                    // the task's select! between the two is unbiased: whether the simulated connect (which
+                    // resolves at its first poll unless planned slow) wins, and whether a queued disable
+                    // cancels the attempt before the network sees it, is not decided by any property
+                    self.order_dependent = Some("connect started while a command is queued");
+                }
                 match plan {
                     Plan::Accept if self.server_up => self.on_connected(),
                     Plan::Accept | Plan::Refuse => self.on_connect_failed(),
